@@ -310,6 +310,10 @@ func (f *FnVC) block(b *ssa.BasicBlock) {
 		f.instr(ins)
 		for _, h := range hintAfter[ins] {
 			env := f.pointEnv(ins)
+			if h.Apply {
+				f.applyLemma(env, h, ins.Pos())
+				continue
+			}
 			f.oblige("hint", "at \""+h.Where+"\" assert "+h.C.Text, f.trBool(env, h.C.E), ins.Pos())
 		}
 	}
@@ -1530,6 +1534,31 @@ func (f *FnVC) allocTouchedIn(a *ssa.Alloc, li *loopInfo) bool {
 		return false
 	}
 	return visit(a, 0)
+}
+
+// applyLemma: `at "text" apply E` where E mentions ghost lemmas (Go functions in a file guarded by the build tag,
+// never part of the product, each with a contract of its own proved like any other function - a recursive one is a
+// proof by induction). A call lemma(args) inside E denotes (requires ==> ensures) for those arguments; E is ASSUMED
+// at this program point (it may quantify:  apply forall k int :: lemma(xs, k)).
+func (f *FnVC) applyLemma(env *Env, h HintClause, pos token.Pos) {
+	defer func() {
+		if r := recover(); r != nil {
+			if se, ok := r.(specErr); ok {
+				o := f.oblige("lemma", "at \""+h.Where+"\" apply "+h.C.Text, "false", pos)
+				o.Status, o.Output = "failed", string(se)
+				return
+			}
+			panic(r)
+		}
+	}()
+	n := env.clone()
+	n.inApply = true
+	f.lemmaUsed = false
+	t := f.trBool(n, h.C.E)
+	if !f.lemmaUsed {
+		sfail("apply: the expression mentions no ghost lemma of this package")
+	}
+	f.gfact(t)
 }
 
 // hintPoints: for each hint of the contract, the last instruction of block b whose source line contains the text.
